@@ -200,9 +200,9 @@ def writer_keys(P):
         if cal and cal["name"] == "snprintf":
             a = f.args(i)
             dst = f.strip(a[0])
-            fmt = f.strip(a[2])
-            if f.k(fmt) == "StringLiteral" and f.k(dst) == "DeclRefExpr":
-                fmts.setdefault(f.nodes[dst]["decl"]["id"], []).append((i, f.nodes[fmt]["v"]))
+            fmt, _rest = core.printf_format(f, i)
+            if fmt is not None and f.k(dst) == "DeclRefExpr":
+                fmts.setdefault(f.nodes[dst]["decl"]["id"], []).append((i, fmt))
     pos = f.node_positions()
     for i, cal in f.calls():
         if cal and cal["name"] == "ffpky":      # fits_write_key: primary header keys
@@ -211,7 +211,7 @@ def writer_keys(P):
                 names.append(f.nodes[k]["v"])
             elif f.k(k) == "DeclRefExpr" and f.nodes[k]["decl"]["id"] in fmts:
                 # nearest preceding snprintf into that buffer
-                cands = [(j, fm) for (j, fm) in fmts[f.nodes[k]["decl"]["id"]] if j < i]
+                cands = [(j, fm) for (j, fm) in fmts[f.nodes[k]["decl"]["id"]] if f.seq(j) < f.seq(i)]
                 if cands:
                     fm = cands[-1][1]
                     names += [fm.replace("%d", "0"), fm.replace("%d", "12")]
